@@ -15,11 +15,11 @@ dumps of all trees, see DESIGN.md.
 namespace Delb.Guards
 open Delb.Edit
 
-/-- in a forest of parentless trees a node is offerable (no parent, no siblings) exactly when it is
-    the root of its group -/
+/-- in a forest of parentless trees a node is offerable (no parent, no siblings, not a document's
+    root) exactly when it is the root of its group and that group is not the document's root -/
 theorem c09_offerable_iff (s : StateA) (docRoot : Option Nat) (a : Addr) (info : NodeInfo)
     (h : infoAt s docRoot a = some info) :
-    prepareNewRelative info = none ↔ a.path = [] := by
+    prepareNewRelative info = none ↔ a.path = [] ∧ docRoot ≠ some a.g := by
   unfold infoAt at h
   split at h
   · split at h
@@ -30,6 +30,17 @@ theorem c09_offerable_iff (s : StateA) (docRoot : Option Nat) (a : Addr) (info :
       | nil => simp [prepareNewRelative]
       | cons x q => simp [prepareNewRelative]
   · simp at h
+
+/-- the root of a document is refused by every adding call with InvalidOperation, although it has
+    neither a parent nor siblings: it lives in its document (fix 313e3eb; before it was moved into the
+    other tree while it stayed its document's root) -/
+theorem c09_document_root_not_offerable (target offered : NodeInfo) (hd : offered.isDocRoot = true) :
+    prepareNewRelative offered = some .invalidOperation ∧
+    addSiblingGuard target offered false = some .invalidOperation ∧
+    addChildGuard offered = some .invalidOperation := by
+  have hprep : prepareNewRelative offered = some .invalidOperation := by
+    simp [prepareNewRelative, hd]
+  exact ⟨hprep, by simp [addSiblingGuard, hprep], by simp [addChildGuard, hprep]⟩
 
 /-- a node that has a parent is refused by every adding call with InvalidOperation -/
 theorem c09_attached_rejected (target offered : NodeInfo) (isDef : Bool) (hp : offered.hasParent = true) :
@@ -115,11 +126,11 @@ theorem c09_index_guards (target offered : NodeInfo) (i : Int) (ho : prepareNewR
     passes every guard -/
 theorem c09_legal_passes (target offered : NodeInfo) (isDef : Bool)
     (ho : offered.hasParent = false ∧ offered.hasNext = false ∧ offered.hasPrev = false)
-    (ht : target.hasParent = true) :
+    (hod : offered.isDocRoot = false) (ht : target.hasParent = true) :
     addSiblingGuard target offered isDef = none ∧ addChildGuard offered = none ∧
     replaceGuard target offered isDef = none ∧ (target.isDocRoot = false → ∀ r, detachGuard target r = none) := by
   obtain ⟨h1, h2, h3⟩ := ho
-  have hprep : prepareNewRelative offered = none := by simp [prepareNewRelative, h1, h2, h3]
+  have hprep : prepareNewRelative offered = none := by simp [prepareNewRelative, h1, h2, h3, hod]
   have hs : addSiblingGuard target offered isDef = none := by
     simp [addSiblingGuard, ht, hprep, validateSibling]
   refine ⟨hs, ?_, ?_, ?_⟩
